@@ -106,10 +106,15 @@ func checkC10(p *Prog, r *Report) {
 
 	runCV := func(op *aval, rv, cvv *aval) ([]outcome, map[string]helperCall) {
 		recs := map[string]helperCall{}
-		in := &interp{p: p, f: cv}
+		// a sub-dispatcher (op, any, any) continues the switch: evaluated in place
+		subDispatch := func(g *ssa.Function) bool {
+			ps := g.Signature.Params()
+			return g != cv && g.Blocks != nil && ps.Len() == 3 && isStringT(ps.At(0).Type()) && isEmptyIface(ps.At(1).Type()) && isEmptyIface(ps.At(2).Type())
+		}
+		in := &interp{p: p, f: cv, inline: subDispatch}
 		in.callHook = func(st *istate, c *ssa.Call, args []*aval) *aval {
 			g := c.Common().StaticCallee()
-			if g == nil || !p.inTarget(g) {
+			if g == nil || !p.inTarget(g) || subDispatch(g) {
 				return nil
 			}
 			id := fmt.Sprintf("CALL#%d", len(recs))
@@ -320,7 +325,11 @@ func dispatchArgOK(arg *aval, name string, ptr bool, elem, param types.Type) str
 
 // evalHelper evaluates helper h for one operator under one ordering scenario.
 func evalHelper(p *Prog, h *ssa.Function, op string, ord int, ignoreLoops bool) ([]string, string) {
-	in := &interp{p: p, f: h, maxPaths: 200}
+	// a comparison helper may delegate to a sibling (checkBytes -> checkInt on
+	// the result of bytes.Compare): siblings are evaluated in place
+	in := &interp{p: p, f: h, maxPaths: 200, inline: func(g *ssa.Function) bool {
+		return g != h && g.Blocks != nil && len(g.Blocks) <= 40 && strings.HasPrefix(g.Name(), "check") && len(g.Params) == 3
+	}}
 	a, b := symv("a", h.Params[1].Type()), symv("b", h.Params[2].Type())
 	side := func(v *aval) int {
 		switch v.String() {
